@@ -20,3 +20,42 @@ def from_lib(rx, wrap=lambda v: "s:" + str(v)):
     if isinstance(h, ro.Symbol):
         return ("sym", wrap(h.value))
     raise ValueError(h)
+
+
+def gen_tree(rng, tokens, depth=3):
+    """random regex tuple tree over the given tokens"""
+    if depth == 0 or rng.chance(0.3):
+        r = rng.random()
+        if r < 0.12:
+            return ("eps",)
+        return ("sym", rng.pick(tokens))
+    k = rng.weighted([("cat", 4), ("alt", 4), ("star", 2)])
+    if k == "star":
+        return ("star", gen_tree(rng, tokens, depth - 1))
+    return (k, gen_tree(rng, tokens, depth - 1), gen_tree(rng, tokens, depth - 1))
+
+
+def to_text(t, rng=None):
+    """fully parenthesised text in the documented syntax (operators spelled at random when rng is given)"""
+    k = t[0]
+    if k == "sym":
+        return t[1]
+    if k == "eps":
+        return "$" if (rng is None or rng.chance(0.5)) else "epsilon"
+    if k == "empty":
+        return ""
+    if k == "star":
+        return "(" + to_text(t[1], rng) + ")*"
+    if k == "cat":
+        op = " " if (rng is not None and rng.chance(0.5)) else "."
+        return "(" + to_text(t[1], rng) + op + to_text(t[2], rng) + ")"
+    op = "+" if (rng is not None and rng.chance(0.5)) else "|"
+    return "(" + to_text(t[1], rng) + op + to_text(t[2], rng) + ")"
+
+
+def map_syms(t, f):
+    if t[0] == "sym":
+        return ("sym", f(t[1]))
+    if t[0] in ("eps", "empty"):
+        return t
+    return (t[0],) + tuple(map_syms(x, f) for x in t[1:])
